@@ -179,6 +179,33 @@ Definition static_safeb (f : fmt_id) (b : bytes) : option bool :=
   | F_vhdx | F_vmdk => None
   end.
 
+(* a valid sparse header (the complement of the zone of finding F1): signature KDMV, version 1..3 *)
+Definition hdr_pre (h : bytes) : Prop :=
+  vmdk_sig h = VMDK_MAGIC_PP /\ (vmdk_ver h = 1 \/ vmdk_ver h = 2 \/ vmdk_ver h = 3).
+(* the length of the descriptor area the inspector captures: min(desc_num * 512, DESC_MAX_SIZE) *)
+Definition dsize (h : bytes) : N := N.min (vmdk_desc_num h * 512) VMDK_DESC_MAX_SIZE.
+
+(* executable forms for the sparse VMDK characterisation *)
+Definition descriptor_okb (x : vx) : bool :=
+  match vmdk_check_descriptor (mkIst 0 [] 0%nat false [] x) with Ok _ => true | Exn _ => false end.
+Definition footer_okb (hdr foot : bytes) : bool :=
+  let fh := bslice 512 64 foot in
+  (blen foot =? 1536) && beq (vmdk_sig fh) (vmdk_sig hdr) && (vmdk_ver fh =? vmdk_ver hdr) &&
+  (vmdk_desc_sec fh =? vmdk_desc_sec hdr) && (vmdk_desc_num fh =? vmdk_desc_num hdr) && negb (vmdk_gd fh =? gd_at_end) &&
+  (le_at 8 4 foot =? 0) && (le_at 12 4 foot =? 3) && beq (bslice 16 496 foot) (zeros 496) &&
+  (le_at 1024 8 foot =? 0) && (le_at 1032 4 foot =? 0) && (le_at 1036 4 foot =? 0) && beq (bslice 1040 496 foot) (zeros 496).
+(* None = outside the characterised zone: no valid sparse header (finding F1), or a footer announced on a stream
+   shorter than 63+1536 bytes (C01's finding F3) *)
+Definition vmdk_sparse_safeb (b : bytes) : option bool :=
+  if (64 <=? blen b) && beq (vmdk_sig b) VMDK_MAGIC_PP && ((vmdk_ver b =? 1) || (vmdk_ver b =? 2) || (vmdk_ver b =? 3)) then
+    if (vmdk_gd b =? gd_at_end) && (blen b <? 1599) then None
+    else
+      let D := bslice 512 (dsize b) b in
+      Some ((vmdk_desc_sec b * 512 =? 512) && (512 + dsize b <=? blen b) && is_ascii_text D &&
+            descriptor_okb (mkVx (Some (text_of D)) (vmdk_type_of (text_of D))) &&
+            (negb (vmdk_gd b =? gd_at_end) || footer_okb b (bslice (blen b - 1536) 1536 b)))
+  else None.
+
 (* the VMDK inspector's private attributes (desc_text, vmdktype) and regions, seen through the interface *)
 Definition vmdk_ext_of (i : istate) : vx :=
   match i with I_vmdk s => i_ext s | _ => mkVx None VMDK_NOTFOUND end.
